@@ -40,6 +40,10 @@ func (rs *RateSet) Add(period time.Duration, average int64, burst int64) error {
 	if burst <= 0 {
 		return fmt.Errorf("invalid burst: %v", burst)
 	}
+	if average > int64(period) {
+		// the bucket refills one token every period/average nanoseconds, which must not round down to zero
+		return fmt.Errorf("invalid average: %v tokens per %v is more than one token per nanosecond", average, period)
+	}
 	rs.m[period] = &rate{period: period, average: average, burst: burst}
 	return nil
 }
